@@ -297,6 +297,8 @@ func TestVerifDriver(t *testing.T) {
 			fmt.Fprintln(w, verifVarPool(line[2:]))
 		case strings.HasPrefix(line, "G "):
 			fmt.Fprintln(w, verifTypeLine(line[2:]))
+		case strings.HasPrefix(line, "B "):
+			fmt.Fprintln(w, verifBaseNameLine(line[2:]))
 		default:
 			fmt.Fprintln(w, "BAD")
 		}
